@@ -24,30 +24,30 @@ type Exchange struct {
 	URL    string
 	Req    *http.Request
 
-	mu          sync.Mutex
-	cond        *sync.Cond
-	hdr         http.Header
-	HeaderCalls int
-	WriteCalls  int
-	Status      int
-	Header      http.Header // snapshot at the first WriteHeader/Write
-	Body        []byte
-	Responded   bool // a header or body write happened
-	RespondedAt time.Time
-	Returned    bool // handler returned
-	ReturnedAt  time.Time
-	StartedAt   time.Time
-	Aborted     bool
-	WritesAfterAbort int
+	mu                sync.Mutex
+	cond              *sync.Cond
+	hdr               http.Header
+	HeaderCalls       int
+	WriteCalls        int
+	Status            int
+	Header            http.Header // snapshot at the first WriteHeader/Write
+	Body              []byte
+	Responded         bool // a header or body write happened
+	RespondedAt       time.Time
+	Returned          bool // handler returned
+	ReturnedAt        time.Time
+	StartedAt         time.Time
+	Aborted           bool
+	WritesAfterAbort  int
 	WritesAfterReturn int
-	Panic       any
-	PanicStack  string
-	Hijacked    bool
-	Client      *memConn // client end when hijacked
-	server      *memConn
-	cancel      context.CancelFunc
-	body        *ctlBody
-	flushes     int
+	Panic             any
+	PanicStack        string
+	Hijacked          bool
+	Client            *memConn // client end when hijacked
+	server            *memConn
+	cancel            context.CancelFunc
+	body              *ctlBody
+	flushes           int
 }
 
 func (e *Exchange) Header_() http.Header { return e.hdr }
